@@ -30,7 +30,11 @@ fn special_forms(ch: &mut Chooser) -> Form {
         11 => return Form::Raw("(car '(1 2)))".into()),
         _ => {}
     }
-    Form::Expr(match ch.below(6) {
+    Form::Expr(match ch.below(9) {
+        // character literals whose character is a blank: the blank may be the last character of an input line
+        6 => app("list", vec![Expr::Char(' '), Expr::Char('a'), Expr::Char(' ')]),
+        7 => Expr::Char(if ch.chance(1, 2) { ' ' } else { '\t' }),
+        8 => app("vector", vec![Expr::Char('\t'), Expr::Int(2), Expr::Char(' '), Expr::Str("a ".into())]),
         0 => app("list", vec![Expr::Str("(".into()), Expr::Str(")".into()), Expr::Int(1)]),
         1 => app("list", vec![Expr::Char('('), Expr::Char(')'), Expr::Char(';')]),
         2 => app("list", vec![Expr::Str("a;b".into()), Expr::Str("x ; y (".into())]),
